@@ -37,7 +37,7 @@ func evalC20Snap(p prog.Program) Outcome {
 func genC20Snap() *rapid.Generator[prog.Program] {
 	base := prog.Gen(prog.GenOpts{
 		MinClients: 2, MaxClients: pick(3, 4), MaxSteps: pick(30, 50), MaxTail: pick(8, 14),
-		Kinds: prog.AllEditKinds, SchedOps: []string{"attach", "attach", "histview", "histview", "histview", "cachepurge", "cacheremove", "round", "compact"},
+		Kinds: prog.AllEditKinds, SchedOps: []string{"attach", "attach", "histview", "histview", "histview", "cachepurge", "cacheremove", "round", "compact", "adminedit", "adminedit", "adminedit"},
 		SyncWeight: 6, OfflineBias: true, Snapshots: true,
 	})
 	return rapid.Custom(func(t *rapid.T) prog.Program {
